@@ -8,7 +8,7 @@ from vlib import render as RR
 
 ID = "C03"
 # look-alikes of prelude names (vlib/defs.py HOSTILE) this check's derives are immune to on the unchanged tree
-HOSTILE_OK = ['Default', 'Into', 'Result', 'Some', 'Ok', 'Iterator', 'Clone', 'AsRef', 'Send', 'PhantomData', 'IterGet', 'm_matches', 'm_assert', 'm_fmt']
+HOSTILE_OK = ['Default', 'Into', 'Result', 'Some', 'Ok', 'Iterator', 'Clone', 'AsRef', 'Send', 'PhantomData', 'IterGet', 'm_matches', 'm_assert', 'm_fmt', 'ByValue']
 PROP_FILE = "Props/C03.v"
 RULE = ("definitions: systematic kind x {no attr, to_string, every ORDER of 1-3 serialize literals with pairwise distinct byte "
         "lengths (so `last` differs from `longest` in most), both} x prefix {none, empty, ASCII, non-ASCII} x serialize_all x "
